@@ -25,6 +25,14 @@ Definition as_err_nc (k : N) (payload : sexp) : sfe unit :=
 Definition as_err_u8 (k : N) (payload : sexp) : sfe N :=
   if k =? 0 then Wrapped (as_N (nth_s 0 payload)) else Std (kind_of_index k) (as_bytes payload).
 
+Definition s_b64 (r : bytes + b64_error) : sexp :=
+  match r with
+  | inl b => Lst [sN 0; sbytes b]
+  | inr e => Lst [sN 1; sbytes (b64_error_display e)]
+  end.
+Definition as_purl (pre q f : sexp) : purl :=
+  {| u_pre := as_bytes pre; u_query := as_opt as_bytes q; u_frag := as_opt as_bytes f |}.
+
 Definition run_C13 (c : sexp) : sexp :=
   let cust := as_N (nth_s 1 c) in
   match as_Z (nth_s 0 c) with
@@ -41,5 +49,29 @@ Definition run_C13 (c : sexp) : sexp :=
       let data := as_bytes (nth_s 2 c) in
       if cust =? 0 then s_err nc_display (de unit nc_parse data)
       else s_err u8_display (de N u8_parse data)
+  (* FormatType::Binary (STANDARD_NO_PAD): encode, then decode what was written *)
+  | 2%Z =>
+      let w := b64_encode false false (as_bytes (nth_s 1 c)) in
+      Lst [sbytes w; s_b64 (b64_decode false false w)]
+  | 3%Z => s_b64 (b64_decode false false (as_bytes (nth_s 1 c)))
+  (* URL form: to_url, then what the client reads back *)
+  | 4%Z =>
+      let k := as_N (nth_s 2 c) in
+      let p := nth_s 3 c in
+      let path := as_bytes (nth_s 4 c) in
+      let u := as_purl (nth_s 5 c) (nth_s 6 c) (nth_s 7 c) in
+      if cust =? 0 then
+        let u' := to_url unit nc_display u path (as_err_nc k p) in
+        let rb := read_back unit nc_parse u' in
+        Lst [sbytes (url_string u'); sopt sbytes (fst rb); sopt (s_err nc_display) (snd rb)]
+      else
+        let u' := to_url N u8_display u path (as_err_u8 k p) in
+        let rb := read_back N u8_parse u' in
+        Lst [sbytes (url_string u'); sopt sbytes (fst rb); sopt (s_err u8_display) (snd rb)]
+  | 5%Z =>
+      let data := as_bytes (nth_s 2 c) in
+      if cust =? 0 then s_err nc_display (decode_err unit nc_parse data)
+      else s_err u8_display (decode_err N u8_parse data)
+  | 6%Z => sbytes (url_string (strip_error_info (as_purl (nth_s 1 c) (nth_s 2 c) (nth_s 3 c))))
   | _ => Lst []
   end.
